@@ -858,6 +858,10 @@ class exists_elim(Method):
                         item.args = [exists_prop] + item.args
                     item.prevs = item.prevs[:-1] + new_intros + [item.prevs[-1]]
                     break
+                elif item.rule in ('variable', 'assume'):
+                    # Variables and assumptions introduced by a later step
+                    # keep their sequents
+                    pass
                 elif item.subproof:
                     # An already expanded block keeps its lines. The lines in it
                     # may depend on the goal, so they get the new assumption too.
